@@ -10,17 +10,25 @@ tdir="$ROOT/target/ptr16"
 rm -rf "$src"; mkdir -p "$src"
 # copy the working tree (tracked + modified files), preserving mtimes so cargo can reuse its cache
 ( cd "${MIPIDSI_SRC:-/repo}" && tar --exclude=./target --exclude=./.git -cf - . ) | ( cd "$src" && tar -xpf - )
-python3 - "$src/src/graphics.rs" <<'PY'
-import sys,re
-p=sys.argv[1]; s=open(p).read()
+python3 - "$src/src" <<'PY'
+# flip every target_pointer_width="16" predicate under src/ (at the pinned commit: 2+2 lines in graphics.rs), so a
+# refactoring that moves the helpers to another file is still compiled the 16-bit way; zero predicates means the
+# tree has no pointer-width-specific code left and the variant equals the default build.
+import sys,os
+root=sys.argv[1]
 a='#[cfg(not(target_pointer_width = "16"))]'
 b='#[cfg(target_pointer_width = "16")]'
-na, nb = s.count(a), s.count(b)
-if na!=2 or nb!=2:
-    sys.stderr.write(f"MACHINERY: ptr16 rewrite expects exactly 2+2 cfg lines in graphics.rs, found {na}+{nb}\n"); sys.exit(2)
-s=s.replace(a,'#[cfg(any())]').replace(b,'#[cfg(all())]')
-import os
-st=os.stat(p); open(p,'w').write(s); os.utime(p,(st.st_atime,st.st_mtime))
+tot=0
+for d,_,fs in os.walk(root):
+    for f in fs:
+        if not f.endswith('.rs'): continue
+        p=os.path.join(d,f); s=open(p).read()
+        n=s.count(a)+s.count(b)
+        if n==0: continue
+        tot+=n
+        s=s.replace(a,'#[cfg(any())]').replace(b,'#[cfg(all())]')
+        st=os.stat(p); open(p,'w').write(s); os.utime(p,(st.st_atime,st.st_mtime))
+sys.stderr.write(f"ptr16: flipped {tot} cfg predicates\n")
 PY
 cd "$ROOT/mc"
 export CARGO_NET_OFFLINE=true RUSTFLAGS="--cfg mipidsi_verif"
